@@ -410,3 +410,8 @@ impl BetTable {
         }
     }
 }
+
+// verification hook (guard: cfg(kani), set only by `cargo kani`): harness module supplied by /verif
+#[cfg(kani)]
+#[path = "verif_kani_bet.rs"]
+mod verif_kani;
